@@ -33,32 +33,11 @@ func runC08(c *Ctx) {
 	// what a restarted manager finds: every reader of a bucket keyed by a hash looks under the hash its writer used
 	checkHashedBucketKeys(c, "C08-R4")
 	checkCacheMissLoadsSameAddress(c, "C08-R4")
+	// at every commit boundary the next request issues what a restarted wallet would: the issuing critical section
+	// spans commit and callback (C09-R1's rule, taken over)
+	c.Borrow(runC09, "C09-R1", "C08-R2", func(k string) bool { return strings.HasPrefix(k, "tx-site-locked") })
 	// ---------- R1 ----------
-	n := 0
-	for _, fn := range p.FuncsIn("waddrmgr") {
-		for _, b := range fn.Blocks {
-			for _, ins := range b.Instrs {
-				st, ok := ins.(*ssa.Store)
-				if !ok {
-					continue
-				}
-				fa, ok := st.Addr.(*ssa.FieldAddr)
-				if !ok {
-					continue
-				}
-				tn, f := fieldAddrName(fa)
-				if tn != "accountInfo" || !isIndexMirror(f) {
-					continue
-				}
-				n++
-				top := outermost(fn).Name()
-				ok = top == "loadAccountInfo" || inOnCommit(p, fn)
-				c.Check("C08-R1", "index-mirror-only-at-commit:"+top+"."+f, st.Pos(), ok,
-					"the in-memory "+f+" is advanced outside the loader and outside a ReadWriteTx.OnCommit callback: after a rolled-back transaction memory reports indices the database does not have (and a retry does not write them)")
-			}
-		}
-	}
-	c.Floor("C08-R1", "stores to index mirrors", n, 10)
+	checkIndexMirrorsOnlyAtCommit(c, "C08-R1", nil)
 
 	// ---------- R2 ----------
 	checkMirrorAfterDisk(c, "C08-R2", addrMgrMirrors)
@@ -521,4 +500,39 @@ func checkCacheMissLoadsSameAddress(c *Ctx, rule string) {
 		}
 	}
 	c.Floor(rule, "cache-then-database address lookups", n, 1)
+}
+
+// checkIndexMirrorsOnlyAtCommit: the in-memory next-index / last-address mirrors of an account are written only by the
+// loader and inside ReadWriteTx.OnCommit callbacks. skip (optional) leaves out functions by name — used when another
+// property takes the rule over without the constructs recorded as known findings of C08.
+func checkIndexMirrorsOnlyAtCommit(c *Ctx, rule string, skip func(top string) bool) {
+	p := c.P
+	n := 0
+	for _, fn := range p.FuncsIn("waddrmgr") {
+		for _, b := range fn.Blocks {
+			for _, ins := range b.Instrs {
+				st, ok := ins.(*ssa.Store)
+				if !ok {
+					continue
+				}
+				fa, ok := st.Addr.(*ssa.FieldAddr)
+				if !ok {
+					continue
+				}
+				tn, f := fieldAddrName(fa)
+				if tn != "accountInfo" || !isIndexMirror(f) {
+					continue
+				}
+				n++
+				top := outermost(fn).Name()
+				if skip != nil && skip(top) {
+					continue
+				}
+				ok = top == "loadAccountInfo" || inOnCommit(p, fn)
+				c.Check(rule, "index-mirror-only-at-commit:"+top+"."+f, st.Pos(), ok,
+					"the in-memory "+f+" is advanced outside the loader and outside a ReadWriteTx.OnCommit callback: after a rolled-back transaction memory reports indices the database does not have (and a retry does not write them)")
+			}
+		}
+	}
+	c.Floor(rule, "stores to index mirrors", n, 10)
 }
